@@ -16,6 +16,10 @@ namespace PyxelModel.C08
 /-- `Processor.set` refuses a name that does not exist (the existence check is in the source). -/
 theorem set_is_strict : PyxelModel.Generated.C08.setIsStrict = true := by decide
 
+/-- `Processor.set` does not overwrite a method or another attribute of the class (such a name is a
+read-only slot of the tree: `has` is true, assignment is refused). -/
+theorem set_refuses_class_attributes : PyxelModel.Generated.C08.setRefusesClassAttrs = true := by decide
+
 /-- `validate_steps` only derives a model name from keys that contain `.arguments`. -/
 theorem enabled_sweep_fixed : PyxelModel.Generated.C08.enabledSweepFixed = true := by decide
 
